@@ -888,6 +888,87 @@ example : reachableFrom [(0, [1]), (1, [2])] [0] 2 :=
 example : (hsites.filter fun s => s.fn == fn.«x/crosschain/keeper.Keeper.BridgeCallResultHandler»).all
     (fun s => inSet ungatedReach s.fn && !inSet blockReach s.fn) = true := by decide +kernel
 
+/-! ### gRPC query handlers (round 5): reachability from the Query entry points, what recovers a query, caller-side guards
+
+A query is not run by the transaction runner.  Two transports reach a query method: ABCI `Query` (CometBFT RPC `abci_query`, the
+REST gateway, the node's own clients) and the gRPC server.  Both facts are regenerated from the cosmos-sdk fork in the module
+cache: `BaseApp.Query` installs a deferred `recover()` before it routes; `BaseApp.RegisterGRPCServer` re-registers every method
+with `ChainUnaryServer(recovery.UnaryServerInterceptor(), …)` — without the first, a panic in a gRPC handler goroutine ends the
+PROCESS (grpc-go does not recover).  Beyond containment the inventory shows that hostile requests cannot steer the sites. -/
+
+/-- the regenerated certificate `queryReach` contains every gRPC query method of every fx-core module and is closed under the
+call edges -/
+theorem query_certificate_checks : certifies graph queryRoots queryReach = true := by decide +kernel
+
+/-- **what recovers a query** (regenerated from `baseapp/abci.go` and `baseapp/grpcserver.go` of the module cache): ABCI `Query`
+defers its `recover()` in front of the route to `handleQueryGRPC`; the gRPC server wraps every method handler in a chain whose
+OUTERMOST interceptor is go-grpc-middleware's recovery interceptor (the SDK's context interceptor runs inside it) -/
+theorem query_transports_recover :
+    abciQueryRecoversFirst = true ∧ abciQueryRoutesGrpc = true ∧ grpcChainInHandler = true ∧
+    grpcChain = ["github.com/grpc-ecosystem/go-grpc-middleware/recovery.UnaryServerInterceptor()", "interceptor"] := by decide
+
+/-- functions with an explicit `panic(…)` that a query method can reach, according to the site inventory -/
+def queryPanicFns : List Nat := (qsites.filter (·.isPanic)).map (·.fn)
+
+theorem query_panic_hosts_listed :
+    (panicHosts.filter (inSet queryReach)).all (fun f => queryPanicFns.contains f) = true ∧
+    queryPanicFns.all (fun f => !queryRoots.contains f) = true ∧
+    edgesGuarded graph queryReach qcalls queryPanicFns = true := by decide +kernel
+
+/-- **the panic inventory behind the query entry points is complete** with respect to the regenerated graph: a function of the
+module whose body contains an explicit `panic(…)` and that ANY call path from ANY gRPC query method reaches has its panic in
+`qsites` (so the dispositions below speak about all of them) -/
+theorem query_panic_inventory_complete (f : Nat) (hf : f ∈ panicHosts) (hr : reachableFrom graph queryRoots f) :
+    ∃ s ∈ qsites, s.fn = f ∧ s.isPanic = true := by
+  have hin : inSet queryReach f = true := by
+    cases h : inSet queryReach f
+    · exact absurd hr (certifies_sound graph queryRoots queryReach query_certificate_checks f h)
+    · rfl
+  have h := List.all_eq_true.1 query_panic_hosts_listed.1 f (by simp [List.mem_filter, hf, hin])
+  simp only [queryPanicFns, List.contains_iff_mem, List.mem_map, List.mem_filter] at h
+  obtain ⟨s, ⟨hs, hk⟩, rfl⟩ := h
+  exact ⟨s, hs, rfl, hk⟩
+
+/-- **a hostile request cannot steer an explicit panic behind a query**: whatever the call path from a query method to the
+function that hosts the panic, the LAST call on it is in the regenerated call table and the caller tests the very condition the
+panic sits behind, on the same argument, in a dominating early return (`getQueryServerByChainName`: `if !k.router.HasRoute(chainName)
+{ return nil, error }` in front of `k.router.GetRoute(chainName)`, whose body is `if !rtr.HasRoute(path) { panic(…) }`).  Two
+cooperating sites: dropping the caller's test, or calling the host from a second place without it, breaks this proof.  No query
+method hosts such a panic itself. -/
+theorem query_panic_calls_guarded (s : HSite) (hs : s ∈ qsites) (hk : s.isPanic = true)
+    {r a : Nat} (hr : r ∈ queryRoots) (hra : Reach graph r a) (he : graph.edge a s.fn) :
+    callsGuarded qcalls a s.fn = true ∧ s.fn ∉ queryRoots := by
+  have hm : s.fn ∈ queryPanicFns := by
+    simp only [queryPanicFns, List.mem_map, List.mem_filter]
+    exact ⟨s, ⟨hs, hk⟩, rfl⟩
+  refine ⟨edgesGuarded_sound graph queryRoots queryReach qcalls queryPanicFns query_certificate_checks
+    query_panic_hosts_listed.2.2 hr hra he hm, ?_⟩
+  have h := List.all_eq_true.1 query_panic_hosts_listed.2.1 s.fn hm
+  simpa using h
+
+/-- every `Must…` call behind a query decodes the chain's own state (a store value, a stored record's field): none takes a field
+of the request -/
+theorem query_must_sites_own_state :
+    (qsites.filter (fun s => !s.isPanic)).all (fun s => s.kind == "must" && s.arg != "msg" && s.arg != "none") = true := by
+  decide +kernel
+
+/-- not vacuous: the query side has entry points in the bridge, erc20, gov and migrate modules, a non-trivial reach, the router
+panic with its guarded call, and store-decoding `Must…` sites -/
+theorem query_inventory_has_key_sites :
+    40 ≤ queryRoots.length ∧ 100 ≤ (nodes.filter fun n => inSet queryReach n.id).length ∧
+    qsites.any (fun s => s.fn == fn.«x/crosschain/keeper.router.GetRoute» && s.isPanic && s.conds == ["!rtr.HasRoute(path)"]) = true ∧
+    qcalls.any (fun c => c.callee == fn.«x/crosschain/keeper.router.GetRoute» && c.guard == "HasRoute" && c.guarded) = true ∧
+    10 ≤ (qsites.filter (fun s => !s.isPanic)).length := by decide +kernel
+
+-- the guarded-edge check distinguishes: the same graph with the dominating test missing is rejected, and a second, unrecorded
+-- call of the host is rejected as well
+example : edgesGuarded [(0, [1]), (1, [2])] 0b111 [⟨1, 2, "HasRoute", "x", true⟩] [2] = true := by decide
+example : edgesGuarded [(0, [1]), (1, [2])] 0b111 [⟨1, 2, "HasRoute", "x", false⟩] [2] = false := by decide
+example : edgesGuarded [(0, [1, 2]), (1, [2])] 0b111 [⟨1, 2, "HasRoute", "x", true⟩] [2] = false := by decide
+example : ∃ s ∈ qsites, s.isPanic = true ∧ ∃ r ∈ queryRoots, inSet queryReach s.fn = true ∧ inSet queryReach r = true := by
+  refine ⟨qsites.find? (·.isPanic) |>.get (by decide +kernel), List.mem_of_find?_eq_some (Option.some_get _).symm, ?_⟩
+  decide +kernel
+
 end Handler
 
 end FxVerif.Props.C20
